@@ -1435,7 +1435,29 @@ func c04HeaderBeforeStream(c *Ctx) {
 		// dispatch calls that can run with the sender (reachable from its construction)
 		ir.EachInstr(fn, func(_ *ssa.BasicBlock, _ int, in ssa.Instruction) {
 			call, ok := in.(*ssa.Call)
-			if !ok || !c.isDispatchCall(call) {
+			if !ok {
+				return
+			}
+			dispatches := c.isDispatchCall(call)
+			if !dispatches {
+				// the dispatch may sit in a helper this function hands the prepared context to (serveRequest(reqCtx, …))
+				if sc := ir.StaticCallee(call); sc != nil && c.P.IsLib(sc) && !isRespondCall(c, call) {
+					takesCtx := false
+					for _, a := range call.Call.Args {
+						if ir.TypeStr(a.Type()) == "context.Context" {
+							takesCtx = true
+						}
+					}
+					if takesCtx {
+						ir.EachCall(sc, func(ic ssa.CallInstruction) {
+							if c.isDispatchCall(ic) {
+								dispatches = true
+							}
+						})
+					}
+				}
+			}
+			if !dispatches {
 				return
 			}
 			after := false
